@@ -87,24 +87,150 @@ reproduces every terminating run of it, whatever the number of iterations.  The 
 below are the loop's defining equations in the form the statement uses. -/
 
 open P2sh.Core in
-theorem while_exits_on_falsey (fuel : Nat) (c : CExpr) (body : List CStmt) (g g1 : List Val) (vc : Val)
+theorem while_exits_on_falsey (fuel : Nat) (lbl : Option String) (c : CExpr) (body : List CStmt) (g g1 : List Val) (vc : Val)
     (hc : eval g c = some (vc, g1)) (hf : vc.isFalsey = true) :
-    evalS (fuel + 1) g (.whileS c body) = some g1 := by
+    evalS (fuel + 1) g (.whileS lbl c body) = some (g1, .normal) := by
   simp [evalS, hc, hf]
 
 open P2sh.Core in
-theorem while_repeats_on_truthy (fuel : Nat) (c : CExpr) (body : List CStmt) (g g1 g2 : List Val) (vc : Val)
-    (hc : eval g c = some (vc, g1)) (hf : vc.isFalsey = false) (hb : evalP fuel g1 body = some g2) :
-    evalS (fuel + 1) g (.whileS c body) = evalS fuel g2 (.whileS c body) := by
-  simp [evalS, hc, hf, hb]
+/-- the body ended normally, or in a `continue` addressed to this loop: the loop starts again -/
+theorem while_repeats_on_truthy (fuel : Nat) (lbl : Option String) (c : CExpr) (body : List CStmt) (g g1 g2 : List Val) (vc : Val) (f : Flow)
+    (hc : eval g c = some (vc, g1)) (hf : vc.isFalsey = false) (hb : evalP fuel g1 body = some (g2, f))
+    (ha : loopAct lbl f = .again) :
+    evalS (fuel + 1) g (.whileS lbl c body) = evalS fuel g2 (.whileS lbl c body) := by
+  simp [evalS, hc, hf, hb, ha]
 
 open P2sh.Core in
 /-- the compiled loop: condition, exit test, body, back edge — and it reproduces every terminating run -/
-theorem while_compiled (fuel : Nat) (c : CExpr) (body : List CStmt) (C : List Instr) (K : List Val) (pos k : Nat)
-    (stk g g' : List Val) (h : codeAt C pos (compileS pos k (.whileS c body))) (hp : poolAt K k (constsS (.whileS c body)))
-    (he : evalS fuel g (.whileS c body) = some g') :
-    Steps C K ⟨pos, stk, g⟩ ⟨pos + bytes (compileS pos k (.whileS c body)), stk, g'⟩ :=
-  compileS_correct fuel _ C K pos k stk g g' h hp he
+theorem while_compiled (fuel : Nat) (lbl : Option String) (c : CExpr) (body : List CStmt) (C : List Instr) (K : List Val) (pos k : Nat)
+    (ctx : List LoopCtx) (stk g g' : List Val) (f : Flow)
+    (h : codeAt C pos (compileS pos k ctx (.whileS lbl c body))) (hp : poolAt K k (constsS (.whileS lbl c body)))
+    (he : evalS fuel g (.whileS lbl c body) = some (g', f)) :
+    Steps C K ⟨pos, stk, g⟩ ⟨exitPc ctx (pos + bytes (compileS pos k ctx (.whileS lbl c body))) f, stk, g'⟩ :=
+  compileS_correct fuel _ C K pos k ctx stk g g' f h hp he
+
+/-! ### `break` / `continue`, plain and labelled (core fragment)
+
+`Core.lookupLoop` is the compiler's search of its loop stack: a plain `break` / `continue` is
+addressed to the innermost loop, a labelled one to the innermost loop carrying that label
+(`Core.targets`).  A loop consumes the flows addressed to it (`Core.loopAct`) and lets the
+others through to the enclosing loops.  The theorems are instances of `Core.sound_all`: the
+machine is at the end / the beginning of the addressed loop, with the stack the loop was
+entered with. -/
+
+open P2sh.Core in
+/-- **`break` leaves the named loop**: the body of `lbl: loop { … }` ends in a `break l`
+addressed to this loop (plain, or `l = lbl`) — the loop ends normally with the globals at the
+`break`, and the compiled code is at the byte after the loop, with the loop's entry stack -/
+theorem break_leaves_named_loop (fuel : Nat) (lbl l : Option String) (body : List CStmt) (C : List Instr) (K : List Val)
+    (pos k : Nat) (ctx : List LoopCtx) (stk g g2 : List Val)
+    (h : codeAt C pos (compileS pos k ctx (.loopS lbl body))) (hp : poolAt K k (constsS (.loopS lbl body)))
+    (hb : evalP fuel g body = some (g2, .brk l)) (ht : targets lbl l = true) :
+    evalS (fuel + 1) g (.loopS lbl body) = some (g2, .normal) ∧
+    Steps C K ⟨pos, stk, g⟩ ⟨pos + bytes (compileS pos k ctx (.loopS lbl body)), stk, g2⟩ := by
+  have he : evalS (fuel + 1) g (.loopS lbl body) = some (g2, .normal) := by simp [evalS, hb, loopAct, ht]
+  exact ⟨he, compileS_correct (fuel + 1) _ C K pos k ctx stk g g2 .normal h hp he⟩
+
+open P2sh.Core in
+/-- … and a `break l` addressed to another loop leaves this loop too, and goes on to the end of
+the loop the enclosing loop stack resolves `l` to: the innermost one for a plain `break`, the
+innermost one labelled `l` otherwise -/
+theorem break_leaves_enclosing_loop (fuel : Nat) (lbl l : Option String) (body : List CStmt) (C : List Instr) (K : List Val)
+    (pos k : Nat) (ctx : List LoopCtx) (stk g g2 : List Val)
+    (h : codeAt C pos (compileS pos k ctx (.loopS lbl body))) (hp : poolAt K k (constsS (.loopS lbl body)))
+    (hb : evalP fuel g body = some (g2, .brk l)) (ht : targets lbl l = false) :
+    evalS (fuel + 1) g (.loopS lbl body) = some (g2, .brk l) ∧
+    Steps C K ⟨pos, stk, g⟩ ⟨breakTarget ctx l, stk, g2⟩ := by
+  have he : evalS (fuel + 1) g (.loopS lbl body) = some (g2, .brk l) := by simp [evalS, hb, loopAct, ht]
+  exact ⟨he, compileS_correct (fuel + 1) _ C K pos k ctx stk g g2 (.brk l) h hp he⟩
+
+open P2sh.Core in
+/-- the same for `while` (the condition was truthy) -/
+theorem break_leaves_named_while (fuel : Nat) (lbl l : Option String) (c : CExpr) (body : List CStmt) (C : List Instr) (K : List Val)
+    (pos k : Nat) (ctx : List LoopCtx) (stk g g1 g2 : List Val) (vc : Val)
+    (h : codeAt C pos (compileS pos k ctx (.whileS lbl c body))) (hp : poolAt K k (constsS (.whileS lbl c body)))
+    (hc : eval g c = some (vc, g1)) (hf : vc.isFalsey = false)
+    (hb : evalP fuel g1 body = some (g2, .brk l)) (ht : targets lbl l = true) :
+    evalS (fuel + 1) g (.whileS lbl c body) = some (g2, .normal) ∧
+    Steps C K ⟨pos, stk, g⟩ ⟨pos + bytes (compileS pos k ctx (.whileS lbl c body)), stk, g2⟩ := by
+  have he : evalS (fuel + 1) g (.whileS lbl c body) = some (g2, .normal) := by simp [evalS, hc, hf, hb, loopAct, ht]
+  exact ⟨he, compileS_correct (fuel + 1) _ C K pos k ctx stk g g2 .normal h hp he⟩
+
+open P2sh.Core in
+/-- **`continue` restarts the named loop**: the body of `lbl: loop { … }` ends in a
+`continue l` addressed to this loop — the evaluation goes on with a fresh iteration in the
+globals at the `continue`, and the compiled code is back at the loop's first byte with the
+loop's entry stack -/
+theorem continue_restarts_named_loop (fuel : Nat) (lbl l : Option String) (body : List CStmt) (C : List Instr) (K : List Val)
+    (pos k : Nat) (ctx : List LoopCtx) (stk g g2 : List Val)
+    (h : codeAt C pos (compileS pos k ctx (.loopS lbl body))) (hp : poolAt K k (constsS (.loopS lbl body)))
+    (hb : evalP fuel g body = some (g2, .cont l)) (ht : targets lbl l = true) :
+    evalS (fuel + 1) g (.loopS lbl body) = evalS fuel g2 (.loopS lbl body) ∧
+    Steps C K ⟨pos, stk, g⟩ ⟨pos, stk, g2⟩ := by
+  refine ⟨by simp [evalS, hb, loopAct, ht], ?_⟩
+  simp only [compileS] at h
+  simp only [constsS] at hp
+  have := compileP_correct fuel body C K pos k (⟨lbl, pos, pos + sizeP body + 3⟩ :: ctx) stk g g2 (.cont l) (codeAt_left h) hp hb
+  exact this.to (by simp [exitPc, contTarget, lookupLoop, ht])
+
+open P2sh.Core in
+/-- for `while`: the loop's first byte is the condition — it is evaluated again -/
+theorem continue_restarts_named_while (fuel : Nat) (lbl l : Option String) (c : CExpr) (body : List CStmt) (C : List Instr) (K : List Val)
+    (pos k : Nat) (ctx : List LoopCtx) (stk g g1 g2 : List Val) (vc : Val)
+    (h : codeAt C pos (compileS pos k ctx (.whileS lbl c body))) (hp : poolAt K k (constsS (.whileS lbl c body)))
+    (hc : eval g c = some (vc, g1)) (hf : vc.isFalsey = false)
+    (hb : evalP fuel g1 body = some (g2, .cont l)) (ht : targets lbl l = true) :
+    evalS (fuel + 1) g (.whileS lbl c body) = evalS fuel g2 (.whileS lbl c body) ∧
+    Steps C K ⟨pos, stk, g⟩ ⟨pos, stk, g2⟩ := by
+  refine ⟨by simp [evalS, hc, hf, hb, loopAct, ht], ?_⟩
+  simp only [compileS] at h
+  simp only [constsS] at hp
+  have s1 := compile_correct c C K pos k stk g vc g1 (codeAt_left (codeAt_left (codeAt_left h))) (poolAt_left hp) hc
+  have hj := codeAt_right (codeAt_left (codeAt_left h))
+  have s2 := Steps.one (step_jif (stk := stk) (g := g1) (v := vc) (K := K) hj)
+  simp only [hf, Bool.false_eq_true, if_false] at s2
+  have hbody := codeAt_right (codeAt_left h)
+  have s3 := compileP_correct fuel body C K _ _ (⟨lbl, pos, pos + bytes (compile pos k c) + 3 + sizeP body + 3⟩ :: ctx) stk g1 g2 (.cont l)
+    (hbody.to (by posarith)) (poolAt_right hp) hb
+  exact ((s1.trans s2).trans s3).to (by simp [exitPc, contTarget, lookupLoop, ht])
+
+open P2sh.Core in
+/-- … and a `continue l` addressed to another loop leaves this one for the beginning of the
+loop the enclosing stack resolves `l` to -/
+theorem continue_restarts_enclosing_loop (fuel : Nat) (lbl l : Option String) (body : List CStmt) (C : List Instr) (K : List Val)
+    (pos k : Nat) (ctx : List LoopCtx) (stk g g2 : List Val)
+    (h : codeAt C pos (compileS pos k ctx (.loopS lbl body))) (hp : poolAt K k (constsS (.loopS lbl body)))
+    (hb : evalP fuel g body = some (g2, .cont l)) (ht : targets lbl l = false) :
+    evalS (fuel + 1) g (.loopS lbl body) = some (g2, .cont l) ∧
+    Steps C K ⟨pos, stk, g⟩ ⟨contTarget ctx l, stk, g2⟩ := by
+  have he : evalS (fuel + 1) g (.loopS lbl body) = some (g2, .cont l) := by simp [evalS, hb, loopAct, ht]
+  exact ⟨he, compileS_correct (fuel + 1) _ C K pos k ctx stk g g2 (.cont l) h hp he⟩
+
+open P2sh.Core in
+/-- the loop stack is searched from the innermost loop outwards; a plain `break` takes the
+innermost loop, a labelled one the innermost loop with that label -/
+example : let ctx : List LoopCtx := [⟨none, 30, 40⟩, ⟨some "a", 20, 50⟩, ⟨some "b", 10, 60⟩, ⟨some "a", 0, 70⟩]
+    breakTarget ctx none = 40 ∧ breakTarget ctx (some "a") = 50 ∧ breakTarget ctx (some "b") = 60 ∧
+    contTarget ctx (some "b") = 10 ∧ contTarget ctx none = 30 := by
+  simp [breakTarget, contTarget, lookupLoop, targets]
+
+open P2sh.Core in
+/-- non-vacuity:
+```
+let i = 0; let s = 0;
+a: while i < 3 { i = i + 1; let j = 0;
+  loop { j = j + 1; if j > 2 { break; } if i == 2 { continue a; } s = s + 1; } }
+``` ends with `i = 3`, `s = 4` (the inner loop runs two full rounds for `i = 1, 3`, none for `i = 2`) -/
+example : evalP 200 [.null, .null, .null]
+    [.letG 0 (.lit (.int 0)), .letG 1 (.lit (.int 0)),
+     .whileS (some "a") (.lt (.gget 0) (.lit (.int 3)))
+       [.expr (.gset 0 (.bin .add (.gget 0) (.lit (.int 1)))), .letG 2 (.lit (.int 0)),
+        .loopS none
+          [.expr (.gset 2 (.bin .add (.gget 2) (.lit (.int 1)))),
+           .ifS (.bin .greater (.gget 2) (.lit (.int 2))) [.breakS none] [],
+           .ifS (.bin .equal (.gget 0) (.lit (.int 2))) [.continueS (some "a")] [],
+           .expr (.gset 1 (.bin .add (.gget 1) (.lit (.int 1))))]]]
+    = some ([.int 3, .int 4, .int 3], .normal) := by rfl
 
 /-! ### `match` (core fragment)
 
